@@ -212,12 +212,15 @@ pub fn apply_change_to_db_try_fix_conflicts(
 }
 
 pub fn unwatch_key(key: &String, sender: &Sender<String>, db: &Database) -> Response {
-    let mut senders = get_senders(&key, &db.watchers);
-    log::debug!("Senders before unwatch {:?}", senders.len());
-    senders.retain(|x| !x.same_receiver(&sender));
-    log::debug!("Senders after unwatch {:?}", senders.len());
+    // The list is changed in place under one write lock: copying it, filtering the copy and
+    // storing it back (as this used to do) loses a watch registered by another client in between
+    // and can bring back a registration that another client removed in between.
     let mut watchers = db.watchers.map.write().expect("db.watchers.map.lock");
-    watchers.insert(key.clone(), senders);
+    if let Some(senders) = watchers.get_mut(key) {
+        log::debug!("Senders before unwatch {:?}", senders.len());
+        senders.retain(|x| !x.same_receiver(&sender));
+        log::debug!("Senders after unwatch {:?}", senders.len());
+    }
     Response::Ok {}
 }
 
